@@ -420,7 +420,13 @@ def block_replay(name, iset, inputs, ob):
         regs &= ~((1 << ins['i']) - 1) & 0xFFFF
         cnt = bin(regs).count('1')
         a0 = ins['loop.address']
-        nb = {'IA': a0, 'IB': a0 - 4, 'DA': a0 + 4 * cnt - 4, 'DB': a0 + 4 * cnt}[mode] & M32
+        if kind in USERKINDS:
+            lst = regs & 0x7FFF
+            length = 4 * bin(lst).count('1') + (4 if kind == 'ldmeret' else 0) + (4 if (kind == 'stmuser' and regs >> 15) else 0)
+            nb = (a0 - (4 if ins.get('word_higher') else 0) + (0 if ins.get('increment') else length)) & M32
+            ins['registers'] = regs
+        else:
+            nb = {'IA': a0, 'IB': a0 - 4, 'DA': a0 + 4 * cnt - 4, 'DB': a0 + 4 * cnt}[mode] & M32
         nreg = 13 if kind in ('push', 'pop') else ins.get('n', 0)
         Rv = ST.rset({k[2:]: v for k, v in init.items() if k.startswith('R.')}, nreg, init['cpsr'] & 31, nb)
         for k, v in Rv.items():
